@@ -259,6 +259,33 @@ pub fn run(op: &str, a: &[&str]) -> Option<String> {
             let b = hex(h)?;
             from_slice6(first, &b)
         }
+        ("ext.from_slice_lax", [first, h]) => {
+            let first: u8 = num(first)?;
+            let b = hex(h)?;
+            let (e, next, rest, err) = Ipv6Extensions::from_slice_lax(IpNumber(first), &b);
+            let es = match err {
+                None => "none".to_string(),
+                Some((err, layer)) => {
+                    use err::ipv6_exts::{HeaderError as H, HeaderSliceError as S};
+                    let s = match err {
+                        S::Len(l) => show_len(&l),
+                        S::Content(H::HopByHopNotAtStart) => {
+                            "content(HopByHopNotAtStart)".to_string()
+                        }
+                        S::Content(H::IpAuth(a)) => format!("content(IpAuth({:?}))", a),
+                    };
+                    format!("some({},{:?})", s, layer)
+                }
+            };
+            format!(
+                "({},next={},rest={},header_len={},err={})",
+                show_exts(&e),
+                next.0,
+                win(&b, rest),
+                e.header_len(),
+                es
+            )
+        }
         ("ext.roundtrip", [e, first, tail]) => {
             let e = parse_exts(e)?;
             let first: u8 = num(first)?;
